@@ -1,14 +1,31 @@
 #!/bin/sh
-# Build everything the checks need, offline, from files on disk only.
+# Build everything the registered checks need, offline, from files on disk only.
+# Only the properties listed in accepted.txt (= claimed in MANIFEST.json) are built.
 set -e
-cd "$(dirname "$0")/lean"
+cd "$(dirname "$0")"
 targets="OMV.AuditTool"
-for f in OMV/Props/C*.lean; do
-  [ -f "$f" ] || continue
-  id=$(basename "$f" .lean)
-  targets="$targets OMV.Props.$id"
+for id in $(cat accepted.txt); do
   low=$(echo "$id" | tr 'A-Z' 'a-z')
-  [ -f "Driver/$id.lean" ] && targets="$targets drv_$low"
+  [ -f "lean/OMV/Props/$id.lean" ] && targets="$targets OMV.Props.$id"
+  [ -f "lean/Driver/$id.lean" ] && targets="$targets drv_$low"
 done
+# regenerate translator outputs first (tables extracted from /repo)
+for id in $(cat accepted.txt); do
+  low=$(echo "$id" | tr 'A-Z' 'a-z')
+  if grep -q "def translate" "harness/$low.py" 2>/dev/null; then
+    /venv/bin/python - <<PY || true
+import sys, os
+sys.path.insert(0, 'harness')
+os.environ.setdefault('OPENMDAO_REPORTS', '0')
+import importlib
+m = importlib.import_module('$low')
+try:
+    m.PROP.translate()
+except Exception as e:
+    print('translate($id) failed in setup (will be handled by the check):', e)
+PY
+  fi
+done
+cd lean
 echo "lake build $targets"
 lake build $targets
